@@ -1279,6 +1279,187 @@ fn run_listen_job(fx: &Arc<Fx>, job: &Job, listener: &TcpListener, att_path: Pat
 	}
 }
 
+fn type_of(t: u8) -> Option<Type> {
+	[
+		Type::Error, Type::Hand, Type::Shake, Type::Ping, Type::Pong, Type::GetPeerAddrs, Type::PeerAddrs, Type::GetHeaders,
+		Type::Header, Type::Headers, Type::GetBlock, Type::Block, Type::GetCompactBlock, Type::CompactBlock,
+		Type::StemTransaction, Type::Transaction, Type::TxHashSetRequest, Type::TxHashSetArchive, Type::BanReason,
+		Type::GetTransaction, Type::TransactionKernel, Type::GetOutputBitmapSegment, Type::OutputBitmapSegment,
+		Type::GetOutputSegment, Type::OutputSegment, Type::GetRangeProofSegment, Type::RangeProofSegment,
+		Type::GetKernelSegment, Type::KernelSegment,
+	]
+	.into_iter()
+	.find(|x| *x as u8 == t)
+}
+
+/// Raw body bytes as a message payload.
+struct RawBody(Vec<u8>);
+impl Writeable for RawBody {
+	fn write<W: ser::Writer>(&self, w: &mut W) -> Result<(), ser::Error> {
+		w.write_fixed_bytes(&self.0)
+	}
+}
+
+struct NullHandler;
+impl MessageHandler for NullHandler {
+	fn consume(&self, _m: Message) -> Result<Consumed, Error> {
+		Ok(Consumed::None)
+	}
+}
+
+/// Both ends are real connections: the items of the stream are handed to `ConnHandle::send` of a `conn::listen`
+/// connection (its writer thread calls `write_message`, attachments are streamed from a file) and read by `conn::listen`
+/// on the other end with the recording handler. Nothing the harness writes is on the wire.
+fn run_real_writer_job(fx: &Arc<Fx>, job: &Job, listener: &TcpListener, att_path: PathBuf, att_src: PathBuf) -> Out {
+	let (client, server) = match socket_pair(listener) {
+		Ok(p) => p,
+		Err(e) => return Out::Inconclusive(e),
+	};
+	let vi = job.st.vi;
+	let state = Arc::new(Mutex::new(LState {
+		chk: Checker::new(fx.clone(), job.st.clone(), true, att_path),
+		out: None,
+	}));
+	if state.lock().unwrap().chk.done() {
+		return Out::Inconclusive("nothing to observe on the listen path".into());
+	}
+	let (rx_handle, mut rx_stop) = match listen(server, pv(vi), Arc::new(Tracker::new()), RecHandler(state.clone())) {
+		Ok(x) => x,
+		Err(e) => return Out::Inconclusive(format!("listen: {}", e)),
+	};
+	let probe = match client.try_clone() {
+		Ok(c) => c,
+		Err(e) => return Out::Inconclusive(format!("try_clone: {}", e)),
+	};
+	let (tx_handle, mut tx_stop) = match listen(client, pv(vi), Arc::new(Tracker::new()), NullHandler) {
+		Ok(x) => x,
+		Err(e) => return Out::Inconclusive(format!("listen (sender): {}", e)),
+	};
+	let mut harness_err: Option<String> = None;
+	// the writer thread streams an attachment from its file some time after send(): one source file per archive item
+	let mut src_files: Vec<PathBuf> = vec![];
+	for (item_no, it) in job.st.items.iter().enumerate() {
+		let msg = match it {
+			Item::Plain(i) => {
+				let e = &fx.entries[*i];
+				match type_of(e.ty) {
+					Some(t) => Msg::new(t, RawBody(e.bodies[vi].clone()), pv(vi)),
+					None => {
+						harness_err = Some("catalog entry with an unknown type".into());
+						break;
+					}
+				}
+			}
+			Item::Headers(h) => {
+				let mut body = (h.len() as u16).to_be_bytes().to_vec();
+				for i in h {
+					body.extend_from_slice(&fx.hdr_bytes[*i]);
+				}
+				Msg::new(Type::Headers, RawBody(body), pv(vi))
+			}
+			Item::Archive(l, sd) => {
+				let src = PathBuf::from(format!("{}.{}", att_src.display(), item_no));
+				if std::fs::write(&src, archive_attachment(*l, *sd)).is_err() {
+					harness_err = Some("cannot write the attachment source file".into());
+					break;
+				}
+				src_files.push(src.clone());
+				match (Msg::new(Type::TxHashSetArchive, RawBody(archive_body(*l, *sd)), pv(vi)), File::open(&src)) {
+					(Ok(mut m), Ok(f)) => {
+						m.add_attachment(f);
+						Ok(m)
+					}
+					(Err(e), _) => Err(e),
+					(_, Err(e)) => {
+						harness_err = Some(format!("open attachment: {}", e));
+						break;
+					}
+				}
+			}
+			Item::Unknown(_, _) => {
+				harness_err = Some("unknown type in a real_writer stream".into());
+				break;
+			}
+		};
+		match msg {
+			Ok(m) => {
+				if let Err(e) = tx_handle.send(m) {
+					harness_err = Some(format!("ConnHandle::send: {:?}", e));
+					break;
+				}
+			}
+			Err(e) => {
+				harness_err = Some(format!("Msg::new: {:?}", e));
+				break;
+			}
+		}
+	}
+	// write_message spaces messages 150 ms apart
+	let deadline = Instant::now() + Duration::from_millis(20_000 + 200 * job.st.items.len() as u64);
+	let mut dropped = false;
+	let mut timed_out = false;
+	if harness_err.is_none() {
+		let _ = probe.set_read_timeout(Some(Duration::from_millis(1)));
+		loop {
+			if state.lock().unwrap().out.is_some() {
+				break;
+			}
+			let mut one = [0u8; 1];
+			if let Ok(0) = probe.peek(&mut one) {
+				if state.lock().unwrap().out.is_none() {
+					dropped = true;
+				}
+				break;
+			}
+			if Instant::now() > deadline {
+				timed_out = true;
+				break;
+			}
+			thread::sleep(Duration::from_millis(2));
+		}
+	}
+	let _ = probe.shutdown(Shutdown::Both);
+	tx_stop.stop();
+	rx_stop.stop();
+	drop(tx_handle);
+	drop(rx_handle);
+	tx_stop.wait();
+	rx_stop.wait();
+	for f in &src_files {
+		let _ = std::fs::remove_file(f);
+	}
+	if let Some(e) = harness_err {
+		return Out::Inconclusive(e);
+	}
+	let mut st = state.lock().unwrap();
+	let item = st.chk.cur_name();
+	match st.out.take() {
+		Some(Ok(())) => Out::Ok(OkStats {
+			msgs: st.chk.msgs,
+			batches: st.chk.batches,
+			chunks: st.chk.chunks,
+			per_type: std::mem::take(&mut st.chk.per_type),
+		}),
+		Some(Err((item, event, what))) => Out::Fail { item, event, what },
+		None => {
+			if dropped {
+				Out::Fail {
+					item,
+					event: "connection_dropped".into(),
+					what: "the receiving conn::listen shut the connection down before the messages written by the sending conn::listen were all delivered".into(),
+				}
+			} else if timed_out {
+				Out::Stall {
+					item,
+					what: "messages handed to ConnHandle::send were not all delivered by the receiving connection within 20 s".into(),
+				}
+			} else {
+				Out::Inconclusive("real_writer job ended without outcome".into())
+			}
+		}
+	}
+}
+
 struct Group {
 	name: String,
 	total: usize,
@@ -1332,7 +1513,12 @@ fn run_jobs(
 					}
 					let job = &jobs[i];
 					let exec = |job: &Job| -> Out {
-						if job.listen {
+						if job.class == "real_writer" {
+							let id = att_id.fetch_add(1, Ordering::SeqCst);
+							let p = PathBuf::from(scratch.sub(&format!("att-{}.bin", id)));
+							let src = PathBuf::from(scratch.sub(&format!("att-src-{}.bin", id)));
+							run_real_writer_job(fx, job, &listener, p, src)
+						} else if job.listen {
 							let p = PathBuf::from(scratch.sub(&format!(
 								"att-{}.bin",
 								att_id.fetch_add(1, Ordering::SeqCst)
@@ -1355,7 +1541,7 @@ fn run_jobs(
 							}
 						}
 					}
-					let path = if job.listen { "listen" } else { "codec" };
+					let path = if job.class == "real_writer" { "writer_to_listen" } else if job.listen { "listen" } else { "codec" };
 					let cutsig = if job.cuts.len() == 1 {
 						format!("{}", job.cuts[0])
 					} else {
@@ -1858,6 +2044,38 @@ fn gen_jobs(fx: &Arc<Fx>, seed: u64, scale: u32) -> (Vec<Job>, Vec<Group>) {
 		let cuts = rand_cuts(&mut p, st.bytes.len(), k);
 		let delays = rand_delays(&mut p, cuts.len());
 		g.push(&st, class, cuts, delays, 100, listen, None);
+	}
+	// ---- the SENDING half of a real connection: the same sequences handed to conn::listen's ConnHandle::send on
+	// one end (writer thread, write_message, attachment streaming) and read by conn::listen on the other
+	{
+		let mut seen: Vec<(String, usize)> = vec![];
+		let mut picked: Vec<Arc<Stream>> = vec![];
+		for j in &g.jobs {
+			let key = (j.st.name.clone(), j.st.vi);
+			if seen.contains(&key) {
+				continue;
+			}
+			seen.push(key);
+			let sendable = !j.st.items.is_empty()
+				&& j.st.items.len() <= 14
+				&& j.st.items.iter().all(|i| match i {
+					Item::Unknown(_, _) => false,
+					Item::Archive(l, _) => *l <= 200_000,
+					_ => true,
+				});
+			if sendable {
+				picked.push(j.st.clone());
+			}
+		}
+		let want = match scale {
+			0 => 3,
+			1 => 36,
+			_ => 200,
+		};
+		let step = (picked.len() / want.max(1)).max(1);
+		for st in picked.iter().step_by(step).take(want) {
+			g.push(st, "real_writer", vec![], vec![], 0, true, None);
+		}
 	}
 	(g.jobs, g.groups)
 }
@@ -3248,6 +3466,7 @@ fn main() {
 	run.require("attachment chunks received", run.counter("attachment_chunks_received"), q(100, 1_000, 5_000));
 	run.require("unknown-type frames skipped", run.counter("received.unknown"), q(200, 4_000, 10_000));
 	run.require("streams through conn::listen", run.counter("streams_ok.path_listen"), q(0, 400, 1_500));
+	run.require("streams written by a real connection (ConnHandle::send -> writer thread) and read by another", run.counter("streams_ok.real_writer"), q(2, 25, 120));
 	run.require("frames refused before the body", run.counter("frames_refused_before_body"), q(30, 250, 250));
 	run.require("within-limit frames accepted", run.counter("frames_within_limit_accepted"), q(15, 100, 100));
 	run.require("limit cases under Mainnet parameters", run.counter("limit_cases_under_mainnet_parameters"), q(20, 200, 200));
